@@ -7,10 +7,14 @@ import (
 	"fmt"
 	"math/big"
 	"os"
+	"runtime"
+	"sort"
 	"strconv"
 	"strings"
+	"sync/atomic"
 	"testing"
 	"testing/synctest"
+	"time"
 
 	simchannel "perun.network/go-perun/backend/sim/channel"
 	"perun.network/go-perun/channel"
@@ -78,6 +82,13 @@ func loadJSONLines[T any](path string, set func(*T, string)) ([]*T, error) {
 type Supervised struct {
 	progress string
 	viol     *os.File
+	// watchdog (real time): goroutines blocked on a sync.Mutex / RWMutex are not "durably blocked" for synctest, so a
+	// mutex deadlock inside go-perun makes synctest.Wait - and with it the driver - wait for ever. If a case takes
+	// longer than the limit, OnHang is called with the case and all stacks, and the process exits (the supervisor
+	// restarts the driver behind the case).
+	deadline atomic.Int64
+	current  atomic.Value // string
+	OnHang   func(s *Supervised, desc, stacks string)
 }
 
 func newSupervised() *Supervised {
@@ -85,14 +96,62 @@ func newSupervised() *Supervised {
 	if p := os.Getenv("VERIF_VIOL_LOG"); p != "" {
 		s.viol, _ = os.OpenFile(p, os.O_APPEND|os.O_CREATE|os.O_WRONLY, 0o644)
 	}
+	limit := time.Duration(drv.EnvInt("VERIF_CASE_LIMIT_S", 150)) * time.Second
+	go func() {
+		for {
+			time.Sleep(time.Second)
+			d := s.deadline.Load()
+			if d == 0 || time.Now().UnixNano() < d {
+				continue
+			}
+			buf := make([]byte, 8<<20)
+			buf = buf[:runtime.Stack(buf, true)]
+			desc, _ := s.current.Load().(string)
+			if s.OnHang != nil {
+				s.OnHang(s, desc, string(buf))
+			}
+			fmt.Printf("VERIF-WATCHDOG: case %q did not finish within %v of real time\n", desc, limit)
+			os.Exit(3)
+		}
+	}()
 	return s
 }
 
-// Begin records the case about to run.
+// Begin records the case about to run and re-arms the watchdog.
 func (s *Supervised) Begin(i int, what string) {
 	if s.progress != "" {
 		_ = os.WriteFile(s.progress, []byte(fmt.Sprintf("%d\t%s", i, what)), 0o644)
 	}
+	s.current.Store(what)
+	s.deadline.Store(time.Now().Add(time.Duration(drv.EnvInt("VERIF_CASE_LIMIT_S", 150)) * time.Second).UnixNano())
+}
+
+// mutexBlocked lists the go-perun call chains of goroutines that wait for a sync.Mutex / RWMutex (from a dump of all stacks).
+func mutexBlocked(stacks string) []string {
+	var out []string
+	for _, g := range strings.Split(stacks, "\n\n") {
+		if !strings.Contains(g, "sync.(*RWMutex)") && !strings.Contains(g, "sync.(*Mutex)") && !strings.Contains(g, "sync.runtime_Semacquire") {
+			continue
+		}
+		var chain []string
+		for _, ln := range strings.Split(g, "\n") {
+			if strings.HasPrefix(ln, "perun.network/go-perun/") {
+				f := strings.TrimPrefix(ln, "perun.network/go-perun/")
+				if i := strings.LastIndex(f, "("); i > 0 {
+					f = f[:i]
+				}
+				chain = append(chain, f)
+			}
+		}
+		if len(chain) > 0 {
+			if len(chain) > 4 {
+				chain = chain[:4]
+			}
+			out = append(out, strings.Join(chain, " < "))
+		}
+	}
+	sort.Strings(out)
+	return out
 }
 
 // Violate records a violation durably.
